@@ -270,7 +270,7 @@ func g1Options(tag byte, ts uint64, off int) [][]uint64 {
 	case 'l', 'u', 'd':
 		return [][]uint64{{0}, {^uint64(0)}}
 	case 'e':
-		return [][]uint64{{uint64('d')<<56 | 1, 0}, {0, 0}, {uint64('N')<<56 | 5, 0}, {uint64('{')<<56 | 9, 0}, {^uint64(0), 0}}
+		return [][]uint64{{uint64('d')<<56 | 1, 0}, {0, 0}, {uint64('N')<<56 | 5, 0}, {uint64('N') << 56, 0}, {uint64('N')<<56 | 1, 0}, {uint64('{')<<56 | 9, 0}, {uint64('"')<<56 | 2, 7}, {uint64('r') << 56, 0}, {^uint64(0), 0}}
 	case '{', '[', 'r':
 		return [][]uint64{{0}, {1}, {2}, {3}, {ts - uint64(off)}, {ts - uint64(off) + 1}, {-uint64(off)}, {1 << 63}, {^uint64(0)}}
 	}
@@ -288,7 +288,7 @@ func c19Body(w *W) {
 		maxTags = int(v)
 	}
 	onlyG1 := envInt("VERIF_C19_ONLY_G1", 0) == 1
-	w.Note(fmt.Sprintf("G1: every uncompressed frame with tape size 0..4, tag strings of <= %d tags over %d tag bytes, per-tag value options (6 for strings, 2 for numbers, 5 for flagged floats, 9 for offset-bearing tags incl. 0, wrap to 0, tape size, 2^63, 2^64-1), value byte count -8/exact/+8, message empty or 3 bytes", maxTags, len(g1Tags)))
+	w.Note(fmt.Sprintf("G1: every uncompressed frame with tape size 0..4, tag strings of <= %d tags over %d tag bytes, per-tag value options (6 for strings, 2 for numbers, 9 for the verbatim tape word of flagged floats (incl. NOP words with skip 0/1/5, container, string and root words), 9 for offset-bearing tags incl. 0, wrap to 0, tape size, 2^63, 2^64-1), value byte count -8/exact/+8, message empty or 3 bytes", maxTags, len(g1Tags)))
 	var tags []byte
 	var rec func(d int)
 	rec = func(d int) {
